@@ -52,8 +52,10 @@ Definition DOT : byte := x2e.
 Definition s_msg : bytes := [x6d; x73; x67].
 Definition s_level : bytes := [x6c; x65; x76; x65; x6c].
 Definition s_logger : bytes := [x6c; x6f; x67; x67; x65; x72].
+Definition s_debug : bytes := [x64; x65; x62; x75; x67].
 Definition s_info : bytes := [x69; x6e; x66; x6f].
 Definition s_warn : bytes := [x77; x61; x72; x6e].
+Definition s_error : bytes := [x65; x72; x72; x6f; x72].
 Definition c07_cfg : cfg :=
   {| k_message := s_msg; k_level := s_level; k_time := []; k_name := s_logger;
      k_caller := []; k_function := []; k_stack := [];
@@ -61,9 +63,25 @@ Definition c07_cfg : cfg :=
      e_level := SActive; e_time := SActive; e_duration := SActive; e_caller := SNil; e_name := SNil;
      console_sep := [TAB];
      q_layout_escaped := true; q_nil_caller_guard := true |}.
-Definition lvl_txt (hi : bool) : bytes := if hi then s_warn else s_info.
+(* LEVELS.  zapcore.Level as its number: Debug -1, Info 0, Warn 1, Error 2 (the levels the programs log at;
+   DPanic and above have side effects and are other properties'); thresholds range over every Level.
+   A LevelEnabler is a static Level or an AtomicLevel -- a variable of the configuration that the program
+   changes with SetLevel between operations, shared by every core built over it and by every core DERIVED
+   from those (ioCore.With / contextObserver.With / levelFilterCore.With copy the LevelEnabler, i.e. the
+   pointer).  [lenv]: the value of every AtomicLevel, by index.  Like the world [w], the level state is
+   carried by the operation that reads it: a logging call [OLog n hi ...] has [hi : lvq] = its own level and
+   the values the AtomicLevels have when it is made.  A DERIVATION carries none: no With / WithLazy /
+   Named / WithOptions(Fields) / Sugar / Desugar reads a level (see [derive], [pwith], [rwith], [kwith]). *)
+Inductive lref := LStat (l : Z) | LAtom (a : nat).
+Definition lenv := list Z.
+Record lvq := { lv : Z; le : lenv }.
+Definition at_lvl (l : Z) : lvq := {| lv := l; le := [] |}.
+Definition lresolve (e : lenv) (r : lref) : Z := match r with LStat l => l | LAtom a => nth a e 0%Z end.
+(* LowercaseLevelEncoder / Level.String *)
+Definition lvl_txt (l : Z) : bytes :=
+  if (l <? 0)%Z then s_debug else if (l =? 0)%Z then s_info else if (l =? 1)%Z then s_warn else s_error.
 (* the zapcore.Entry built by Logger.check: name, level, message (time is not encoded: no TimeKey) *)
-Definition mk_entry (hi : bool) (nm msg : bytes) : entry :=
+Definition mk_entry (hi : Z) (nm msg : bytes) : entry :=
   {| lvl_text := lvl_txt hi; lvl_string := lvl_txt hi; time_zero := false;
      time_val := {| t_nanos := 0; t_rend := RInt 0 |}; time_col := [];
      name := nm; caller_defined := false; caller_text := []; caller_string := [];
@@ -108,7 +126,7 @@ Inductive pcore :=
 | PTee (l : list pcore)                            (* multiCore *)
 | PSamp (c : pcore)                                (* sampler (never dropping: first = 2^30), with a SamplerHook *)
 | PHook (c : pcore)                                (* hooked *)
-| PFilt (thr : bool) (c : pcore).                  (* levelFilterCore; thr = true: WarnLevel, false: InfoLevel *)
+| PFilt (thr : lref) (c : pcore).                  (* levelFilterCore{core, level}; the level: static or an AtomicLevel *)
 
 (* the root composition as the harness builds it; [LLazy id] is a lazyWithCore
    whose sync.Once + Core pointer is cell [id] of the store *)
@@ -116,7 +134,7 @@ Inductive lcomp :=
 | LIo (console : bool) (sink : nat)
 | LObs (sink : nat)
 | LTee (l : list lcomp)
-| LSamp (c : lcomp) | LHook (c : lcomp) | LFilt (thr : bool) (c : lcomp)
+| LSamp (c : lcomp) | LHook (c : lcomp) | LFilt (thr : lref) (c : lcomp)
 | LLazy (id : nat) (fs : list sfld) (c : lcomp).
 
 (* a Logger's core field *)
@@ -141,7 +159,7 @@ Fixpoint pwith (w : Z) (fs : list sfld) (p : pcore) : pcore :=
   | PTee l => PTee (map (pwith w fs) l)
   | PSamp c => PSamp (pwith w fs c)
   | PHook c => PHook (pwith w fs c)
-  | PFilt thr c => PFilt thr (pwith w fs c)
+  | PFilt thr c => PFilt thr (pwith w fs c)   (* &levelFilterCore{c.core.With(fields), c.level}: no validation, no level read *)
   end.
 
 (* lazyWithCore.initOnce: d.Once.Do(func() { d.core = d.originalCore.With(d.fields) }); returns d.core *)
@@ -182,16 +200,20 @@ Fixpoint kwith (root : lcomp) (w : Z) (fs : list sfld) (k : kcore) (sg : store) 
       let '(cur, sg1) := init_once (kwith root w lfs inner) id sg in (pwith w fs cur, sg1)
   end.
 
-(* LevelEnabler.Enabled.  Leaves are built at DebugLevel. *)
-Definition admits (thr hi : bool) : bool := negb thr || hi.
-Fixpoint penabled (hi : bool) (p : pcore) : bool :=
+(* LevelEnabler.Enabled: Level.Enabled(lvl) = lvl >= l; AtomicLevel.Enabled reads the variable NOW.
+   Leaves are built at DebugLevel or below a LevelEnabler of their own: an ioCore / contextObserver with
+   LevelEnabler L is [PFilt L leaf] -- ioCore.Check and contextObserver.Check are `if c.Enabled(ent.Level)
+   { return ce.AddCore(ent, c) }; return ce`, their Enabled is L.Enabled, their With keeps L: line by line
+   what levelFilterCore{leaf, L} does with an always-enabled leaf (see [dec_comp], tag 8). *)
+Definition admits (thr : lref) (hi : lvq) : bool := (lresolve (le hi) thr <=? lv hi)%Z.
+Fixpoint penabled (hi : lvq) (p : pcore) : bool :=
   match p with
   | PIo _ _ _ | PObs _ _ => true
   | PTee l => existsb (penabled hi) l
   | PSamp c | PHook c => penabled hi c           (* embedded Core *)
   | PFilt thr c => admits thr hi && penabled hi c (* c.level.Enabled(lvl) && c.core.Enabled(lvl) *)
   end.
-Fixpoint renabled (hi : bool) (c : lcomp) : bool :=
+Fixpoint renabled (hi : lvq) (c : lcomp) : bool :=
   match c with
   | LIo _ _ | LObs _ => true
   | LTee l => existsb (renabled hi) l
@@ -199,7 +221,7 @@ Fixpoint renabled (hi : bool) (c : lcomp) : bool :=
   | LFilt thr c => admits thr hi && renabled hi c
   | LLazy _ _ inner => renabled hi inner          (* d.originalCore.Enabled(level): the immutable original core *)
   end.
-Fixpoint kenabled (root : lcomp) (hi : bool) (k : kcore) : bool :=
+Fixpoint kenabled (root : lcomp) (hi : lvq) (k : kcore) : bool :=
   match k with
   | LRoot => renabled hi root
   | LPure p => penabled hi p
@@ -214,7 +236,7 @@ Inductive ev :=
 
 Section Log.
 Variable ent : entry.
-Variable hi : bool.
+Variable hi : lvq.                    (* the level of the call and the level state when it is made *)
 Variable w : Z.                       (* the world when the call is made *)
 Variable fs : list sfld.              (* call-site fields *)
 
@@ -292,7 +314,7 @@ Inductive step :=
 (* every operation carries the value the world has when it is executed *)
 Inductive op :=
 | ODerive (parent : nat) (s : step) (w : Z)                          (* node (length nodes) := parent.step *)
-| OLog (n : nat) (hi : bool) (msg : bytes) (fs : list sfld) (w : Z).  (* node n logs at Warn (hi) / Info *)
+| OLog (n : nat) (hi : lvq) (msg : bytes) (fs : list sfld) (w : Z).   (* node n logs at level [lv hi], the AtomicLevels being [le hi] *)
 
 Record state := { nodes : list logger; sto : store; nxt : nat }.
 
@@ -315,10 +337,10 @@ Definition derive (root : lcomp) (lg : logger) (s : step) (w : Z) (sg : store) (
   end.
 
 (* Logger.check + CheckedEntry.Write *)
-Definition do_log (root : lcomp) (lg : logger) (hi : bool) (msg : bytes) (fs : list sfld) (w : Z) (sg : store)
+Definition do_log (root : lcomp) (lg : logger) (hi : lvq) (msg : bytes) (fs : list sfld) (w : Z) (sg : store)
   : list ev * store :=
   if kenabled root hi (lcore lg) then        (* lvl < DPanicLevel && !log.core.Enabled(lvl): return nil *)
-    let '((c1, w1, _), sg') := klog (mk_entry hi (lname lg) msg) hi w fs root (lcore lg) sg in
+    let '((c1, w1, _), sg') := klog (mk_entry (lv hi) (lname lg) msg) hi w fs root (lcore lg) sg in
     (c1 ++ w1, sg')
   else ([], sg).
 
@@ -347,7 +369,7 @@ Fixpoint run (root : lcomp) (s : state) (ops : list op) : state * list (list ev)
 (* the root composition as given (no ids) and its labelling: cell ids and sink ids in construction order *)
 Inductive comp :=
 | CJson | CConsole | CObs
-| CTee (l : list comp) | CSamp (c : comp) | CHook (c : comp) | CFilt (thr : bool) (c : comp)
+| CTee (l : list comp) | CSamp (c : comp) | CHook (c : comp) | CFilt (thr : lref) (c : comp)
 | CLazy (fs : list sfld) (c : comp).
 Fixpoint label (c : comp) (nc nk : nat) {struct c} : lcomp * nat * nat :=
   match c with
@@ -403,7 +425,7 @@ Definition io_ctxs (m : marks) (ch : list pitem) : list (list fld) :=
 Definition obs_ctx (ch : list pitem) : list sfld := concat (map item_fs ch).
 
 (* static facts about the root composition *)
-Fixpoint senabled (hi : bool) (c : lcomp) : bool :=
+Fixpoint senabled (hi : lvq) (c : lcomp) : bool :=
   match c with
   | LIo _ _ | LObs _ => true
   | LTee l => existsb (senabled hi) l
@@ -418,7 +440,7 @@ Fixpoint all_ids (c : lcomp) : list nat :=
   | LLazy id _ c => all_ids c ++ [id]
   end.
 (* the lazily evaluated contexts of the root composition an entry of this level reaches *)
-Fixpoint log_ids (hi : bool) (c : lcomp) : list nat :=
+Fixpoint log_ids (hi : lvq) (c : lcomp) : list nat :=
   match c with
   | LIo _ _ | LObs _ => []
   | LTee l => concat (map (log_ids hi) l)
@@ -434,12 +456,12 @@ Fixpoint mark_all (w : Z) (ids : list nat) (m : marks) : marks :=
   end.
 
 (* the line a sink receives, from the tree-level semantics *)
-Definition spec_members (hi : bool) (nm msg : bytes) (fields : list fld) : list member :=
+Definition spec_members (hi : Z) (nm msg : bytes) (fields : list fld) : list member :=
   [str_m s_level (lvl_txt hi)] ++ (if is_nil nm then [] else [str_m s_logger nm]) ++ [str_m s_msg msg] ++
   close (ev_flds c07_cfg fields octx0).
-Definition json_line (hi : bool) (nm msg : bytes) (fields : list fld) : bytes :=
+Definition json_line (hi : Z) (nm msg : bytes) (fields : list fld) : bytes :=
   pv false (TObj (spec_members hi nm msg fields)) ++ [NL].
-Definition console_spec_line (hi : bool) (nm msg : bytes) (fields : list fld) : bytes :=
+Definition console_spec_line (hi : Z) (nm msg : bytes) (fields : list fld) : bytes :=
   lvl_txt hi ++ [TAB] ++ (if is_nil nm then [] else nm ++ [TAB]) ++ msg ++
   (match close (ev_flds c07_cfg fields octx0) with
    | [] => []
@@ -448,7 +470,7 @@ Definition console_spec_line (hi : bool) (nm msg : bytes) (fields : list fld) : 
 
 Section SpecLog.
 Variable m : marks.
-Variable hi : bool.
+Variable hi : lvq.
 Variable nm msg : bytes.
 Variable w : Z.
 Variable fs : list sfld.
@@ -456,9 +478,9 @@ Variable fs : list sfld.
    [ch] = lazily evaluated contexts of the composition above this point (innermost first) ++ ch0 *)
 Fixpoint swalk (c : lcomp) (ch : list pitem) (nn : bool) {struct c} : res :=
   match c with
-  | LIo false k => ([], [EOut k (Some (json_line hi nm msg (concat (io_ctxs m ch) ++ evals w fs)))], true)
-  | LIo true k => ([], [EOut k (Some (console_spec_line hi nm msg (concat (io_ctxs m ch) ++ evals w fs)))], true)
-  | LObs k => ([], [EOut k (Some (json_line hi nm msg (evals w (obs_ctx ch ++ fs))))], true)
+  | LIo false k => ([], [EOut k (Some (json_line (lv hi) nm msg (concat (io_ctxs m ch) ++ evals w fs)))], true)
+  | LIo true k => ([], [EOut k (Some (console_spec_line (lv hi) nm msg (concat (io_ctxs m ch) ++ evals w fs)))], true)
+  | LObs k => ([], [EOut k (Some (json_line (lv hi) nm msg (evals w (obs_ctx ch ++ fs))))], true)
   | LTee l =>
       (fix go (l : list lcomp) (nn : bool) {struct l} : res :=
          match l with
@@ -521,14 +543,20 @@ Definition spec_events (c : comp) (ops : list op) : list (list ev) := snd (srun 
 
 (* ========================================================================= *)
 (* Wire.
-   input  = (comp (op ...))
+   input  = (comp (op ...) [0 # (level ...)])
+            the optional fifth element: the values the AtomicLevels of the configuration are created with
      comp = (0) json | (1) console | (2) observer | (3 (comp ...)) tee | (4 comp) sampler | (5 comp) hooked
-          | (6 thr comp) level filter | (7 (field ...) comp) lazy
-     op   = (0 parent step w) | (1 node hi #msg (field ...) w [sugared [(sink ...)]]) | (2 kind ...)
+          | (6 lref comp) level filter (NewIncreaseLevelCore) | (7 (field ...) comp) lazy
+          | (8 lref leaf) a json / console / observer leaf built with that LevelEnabler instead of DebugLevel
+     lref = level (a static zapcore.Level, by number: -1 debug, 0 info, 1 warn, 2 error, ...) | (a) AtomicLevel number a
+     op   = (0 parent step w) | (1 node level #msg (field ...) w [sugared [(sink ...)]]) | (2 kind ...)
+          | (3 a level)
             the optional last element of a logging call: the sinks whose Write FAILS for this call (see
             [apply_faults]); (2 ...): something done by loggers OUTSIDE the tree (cores and sinks of their own;
             same process) at this point of the history -- no part of any judged logger's path: dropped by
-            [dec_case]
+            [dec_case]; (3 a level): AtomicLevel a .SetLevel(level) at this point of the history -- not an
+            operation on any logger: [dec_ops] turns it into the level state [le] carried by the LATER logging
+            calls (the derivations carry none)
      step = (0 (field ...) [sugared]) With | (1 (field ...) [sugared]) WithLazy | (2 #seg [sugared]) Named
           | (3 (field ...) [sugared]) Fields | (4) Sugar | (5) Desugar
      field = as Enc/WireEnc.v, or (100 #key) (101) (102 #key) (103 #key) mutable object / inline / array / stringer
@@ -544,6 +572,8 @@ Definition dec_sfld (s : sx) : sfld :=
   | _ => SF (dec_fld (sx_size s) s)
   end.
 Definition dec_sflds (s : sx) : list sfld := map dec_sfld (sx_l s).
+Definition dec_lref (s : sx) : lref :=
+  match s with SL (a :: _) => LAtom (sx_n a) | _ => LStat (sx_z s) end.
 Fixpoint dec_comp (fuel : nat) (s : sx) : comp :=
   match fuel with
   | O => CJson
@@ -555,7 +585,7 @@ Fixpoint dec_comp (fuel : nat) (s : sx) : comp :=
       | 3%Z => CTee (map (dec_comp f) (sx_l (sx_nth s 1)))
       | 4%Z => CSamp (dec_comp f (sx_nth s 1))
       | 5%Z => CHook (dec_comp f (sx_nth s 1))
-      | 6%Z => CFilt (sx_bool (sx_nth s 1)) (dec_comp f (sx_nth s 2))
+      | 6%Z | 8%Z => CFilt (dec_lref (sx_nth s 1)) (dec_comp f (sx_nth s 2))
       | _ => CLazy (dec_sflds (sx_nth s 1)) (dec_comp f (sx_nth s 2))
       end
   end.
@@ -568,10 +598,25 @@ Definition dec_step (s : sx) : step :=
   | 4%Z => SSugar
   | _ => SDesugar
   end.
-Definition dec_op (s : sx) : op :=
+Definition dec_op (e : lenv) (s : sx) : op :=
   match sx_z (sx_nth s 0) with
   | 0%Z => ODerive (sx_n (sx_nth s 1)) (dec_step (sx_nth s 2)) (sx_z (sx_nth s 3))
-  | _ => OLog (sx_n (sx_nth s 1)) (sx_bool (sx_nth s 2)) (sx_b (sx_nth s 3)) (dec_sflds (sx_nth s 4)) (sx_z (sx_nth s 5))
+  | _ => OLog (sx_n (sx_nth s 1)) {| lv := sx_z (sx_nth s 2); le := e |} (sx_b (sx_nth s 3)) (dec_sflds (sx_nth s 4)) (sx_z (sx_nth s 5))
+  end.
+(* AtomicLevel.SetLevel *)
+Fixpoint set_level (a : nat) (v : Z) (e : lenv) : lenv :=
+  match a, e with
+  | O, [] => [v]
+  | O, _ :: r => v :: r
+  | S k, [] => 0%Z :: set_level k v []
+  | S k, x :: r => x :: set_level k v r
+  end.
+Definition is_setlevel (s : sx) : bool := Z.eqb (sx_z (sx_nth s 0)) 3.
+Fixpoint dec_ops (e : lenv) (l : list sx) : list op :=
+  match l with
+  | [] => []
+  | s :: r => if is_setlevel s then dec_ops (set_level (sx_n (sx_nth s 1)) (sx_z (sx_nth s 2)) e) r
+              else dec_op e s :: dec_ops e r
   end.
 (* The slog front end (exp/zapslog/handler.go) is a translation into the operations above: a Handler is
    a core, a name and the pending groups; WithAttrs = core.With(namespaces of the pending groups, if one of
@@ -584,7 +629,7 @@ Definition dec_op (s : sx) : op :=
 Inductive sop :=
 | SAttrs (p : nat) (attrs : list sfld) (w : Z)
 | SGroup (p : nat) (g : bytes) (w : Z)
-| SHandle (n : nat) (hi : bool) (msg : bytes) (attrs : list sfld) (w : Z).
+| SHandle (n : nat) (hi : lvq) (msg : bytes) (attrs : list sfld) (w : Z).
 Definition is_skip (s : sfld) : bool := match s with SF FSkip => true | _ => false end.
 (* the loop shared by WithAttrs and Handle *)
 Fixpoint add_attrs (gs : list bytes) (added : bool) (attrs : list sfld) : list sfld * bool :=
@@ -619,7 +664,7 @@ Definition dec_sop (s : sx) : sop :=
   match sx_z (sx_nth s 0) with
   | 2%Z => SAttrs (sx_n (sx_nth s 1)) (dec_sflds (sx_nth s 2)) (sx_z (sx_nth s 3))
   | 3%Z => SGroup (sx_n (sx_nth s 1)) (sx_b (sx_nth s 2)) (sx_z (sx_nth s 3))
-  | _ => SHandle (sx_n (sx_nth s 1)) (sx_bool (sx_nth s 2)) (sx_b (sx_nth s 3)) (dec_sflds (sx_nth s 4)) (sx_z (sx_nth s 5))
+  | _ => SHandle (sx_n (sx_nth s 1)) (at_lvl (sx_z (sx_nth s 2))) (sx_b (sx_nth s 3)) (dec_sflds (sx_nth s 4)) (sx_z (sx_nth s 5))
   end.
 (* the operations of the judged tree: everything but the outside activity (2 ...) *)
 Definition is_ext (s : sx) : bool := Z.eqb (sx_z (sx_nth s 0)) 2.
@@ -628,11 +673,11 @@ Definition dec_case (i : sx) : comp * list op :=
   (dec_comp (sx_size (sx_nth i 0)) (sx_nth i 0),
    if sx_bool (sx_nth i 2)
    then ODerive 0 (SNamed (sx_b (sx_nth i 3))) 0 :: scompile [[]] (map dec_sop (sx_l (sx_nth i 1)))
-   else map dec_op (tree_ops i)).
+   else dec_ops (map sx_z (sx_l (sx_nth i 4))) (tree_ops i)).
 (* per logging call, the sinks whose Write fails for that call *)
 Definition dec_faults (i : sx) : list (list nat) :=
   if sx_bool (sx_nth i 2) then []
-  else map (fun s => map sx_n (sx_l (sx_nth s 7))) (filter (fun s => negb (Z.eqb (sx_z (sx_nth s 0)) 0)) (tree_ops i)).
+  else map (fun s => map sx_n (sx_l (sx_nth s 7))) (filter (fun s => negb (Z.eqb (sx_z (sx_nth s 0)) 0) && negb (is_setlevel s)) (tree_ops i)).
 
 Definition is_out (k : nat) (e : ev) : bool := match e with EOut k' _ => Nat.eqb k' k | _ => false end.
 Definition enc_ev (e : ev) : sx :=
